@@ -247,6 +247,20 @@ func main() {
 		}
 		bz, _ := json.Marshal(st)
 		fmt.Println(string(bz))
+	case "bridge-drive":
+		fh, err := os.Create(*out)
+		if err != nil {
+			fmt.Fprintln(os.Stderr, err)
+			os.Exit(2)
+		}
+		st, err := bridge.Drive(fh, *seed, *paths, *maxLen)
+		fh.Close()
+		if err != nil {
+			fmt.Fprintln(os.Stderr, err)
+			os.Exit(2)
+		}
+		bz, _ := json.Marshal(st)
+		fmt.Println(string(bz))
 	case "val-drive":
 		fh, err := os.Create(*out)
 		if err != nil {
@@ -317,7 +331,11 @@ func main() {
 		writeJSON(*out, rep)
 	case "bridge-replay":
 		os.Exit(replayGeneric(*file, func(nb absx.M) walk.Impl {
-			return bridgeImpl{bridge.New(l1.NewConc(absx.Int(nb["seed"]), parseScale(absx.Str(nb["scale"]))), absx.Map(nb["meta"]))}
+			meta := absx.Map(nb["meta"])
+			if absx.Bool(meta["driver"]) {
+				meta = bridge.DriveMeta()
+			}
+			return bridgeImpl{bridge.New(l1.NewConc(absx.Int(nb["seed"]), parseScale(absx.Str(nb["scale"]))), meta)}
 		}))
 	case "oracle-walk":
 		g, err := walk.Load(*edges)
